@@ -110,7 +110,13 @@ func Generate(r *rand.Rand, hosts []string, o Opts) *Generated {
 	newPost := func(host string) *Node {
 		p := g.NewPost(host)
 		day++
-		p.Published = fmt.Sprintf("2024-%02d-%02dT%02d:00:00Z", 1+(day/28)%12, 1+day%28, day%24)
+		frac := ""
+		if day > 1 && r.Intn(5) == 0 {
+			// published within the same second as the previous post: only the fraction tells them apart
+			day--
+			frac = fmt.Sprintf(".%03d", 1+r.Intn(999))
+		}
+		p.Published = fmt.Sprintf("2024-%02d-%02dT%02d:00:00%sZ", 1+(day/28)%12, 1+day%28, day%24, frac)
 		p.PostType = []string{"Note", "Note", "Article", "Page", "Video", "Image"}[r.Intn(6)]
 		local := actorsOn(host)
 		if len(local) > 0 && r.Intn(8) > 0 {
